@@ -183,7 +183,7 @@ typedef struct {
 } kase;
 
 /* result of one execution */
-typedef struct { char line[1024]; } result;
+typedef struct { char line[2048]; } result;
 
 #define RES(...) snprintf(r->line, sizeof r->line, __VA_ARGS__)
 
@@ -204,7 +204,7 @@ static void run_case(const kase* k, result* r, size_t* a0, size_t* a1) {
         BEGIN(); int64_t got = carquet_rle_decode_all(in, n, (int)k->p, o.p, count); END();
         if (got < 0) RES("ERR %" PRId64, got);
         else if (got > (count > 0 ? count : 0)) RES("VIOL count-exceeds-max %" PRId64 " > %" PRId64, got, count);
-        else { char vb[700]; vals_u32(vb, sizeof vb, o.p, got); RES("OK %" PRId64 "%s", got, vb); }
+        else { char vb[900]; vals_u32(vb, sizeof vb, o.p, got); RES("OK %" PRId64 "%s", got, vb); }
     } else if (!strcmp(op, "rle_stream")) {
         /* the streaming decoder: get_batch / skip / get interleaved, at most count values in total */
         o = out_alloc(mulsz(count, 4));
@@ -237,7 +237,7 @@ static void run_case(const kase* k, result* r, size_t* a0, size_t* a1) {
         BEGIN(); int64_t got = carquet_rle_decode_levels(in, n, (int)k->p, o.p, count); END();
         if (got < 0) RES("ERR %" PRId64, got);
         else if (got > (count > 0 ? count : 0)) RES("VIOL count-exceeds-max %" PRId64 " > %" PRId64, got, count);
-        else { char vb[700]; vals_i16(vb, sizeof vb, o.p, got); RES("OK %" PRId64 "%s", got, vb); }
+        else { char vb[900]; vals_i16(vb, sizeof vb, o.p, got); RES("OK %" PRId64 "%s", got, vb); }
     } else if (!strcmp(op, "rle_levels_pref")) {
         o = out_alloc(mulsz(count, 2));
         size_t used = (size_t)-1;
@@ -245,7 +245,7 @@ static void run_case(const kase* k, result* r, size_t* a0, size_t* a1) {
         if (got < 0) { if (used != 0) RES("VIOL consumed-nonzero-on-error %zu", used); else RES("ERR %" PRId64, got); }
         else if (got > (count > 0 ? count : 0)) RES("VIOL count-exceeds-max %" PRId64 " > %" PRId64, got, count);
         else if (used > n) RES("VIOL consumed-exceeds-input %zu > %zu", used, n);
-        else { char vb[700]; vals_i16(vb, sizeof vb, o.p, got); RES("OK %" PRId64 " %zu%s", got, used, vb); }
+        else { char vb[900]; vals_i16(vb, sizeof vb, o.p, got); RES("OK %" PRId64 " %zu%s", got, used, vb); }
     } else if (!strncmp(op, "plain_", 6)) {
         const char* t = op + 6;
         size_t es = !strcmp(t, "bool") ? 1 : !strcmp(t, "i32") || !strcmp(t, "f32") ? 4 :
@@ -577,7 +577,7 @@ int main(int argc, char** argv) {
         h_line[L] = '\n';
         ssize_t wr = write(to_w, h_line, L + 1);
         h_line[L] = 0;
-        char ans[2048]; size_t got = 0; int done = 0, dead = 0, wall = 0;
+        char ans[4096]; size_t got = 0; int done = 0, dead = 0, wall = 0;
         if (wr != (ssize_t)(L + 1)) dead = 1;
         while (!done && !dead) {
             struct pollfd pf = {from_w, POLLIN, 0};
